@@ -442,18 +442,24 @@ func c16impl(c *core.Ctx, im *ssa.Function) {
 				return false, "an uncounted goroutine (" + badSender + ") sends on the result channel"
 			}
 			// caller drains until closed: a receive loop on the result channel in im whose exit is the !ok edge, and every return is after it
+			// (the loop may sit in an unexported helper the caller runs synchronously with the channel as argument)
 			var drain *ssa.UnOp
-			core.Instrs(im, func(ins ssa.Instruction) {
-				if u, isU := ins.(*ssa.UnOp); isU && u.Op == token.ARROW && u.CommaOk && core.InLoop(u.Block()) {
-					drain = u
+			var drainStack []*ssa.Call
+			for _, fd := range core.DeepFind(p, im, func(ins ssa.Instruction) bool {
+				u, isU := ins.(*ssa.UnOp)
+				return isU && u.Op == token.ARROW && u.CommaOk && core.InLoop(u.Block())
+			}) {
+				if v, st := core.Up(fd.Ins.(*ssa.UnOp).X, fd.Stack); len(st) == 0 && chanName(im, v) == resName {
+					drain, drainStack = fd.Ins.(*ssa.UnOp), fd.Stack
 				}
-			})
-			if drain == nil {
+			}
+			if drain == nil || len(drainStack) > 1 {
 				return false, "the caller does not drain the result channel until it is closed"
 			}
 			okRet := true
-			core.Instrs(im, func(ins ssa.Instruction) {
-				if r, isR := ins.(*ssa.Return); isR && r.Block() != im.Recover {
+			drainFn := drain.Parent()
+			core.Instrs(drainFn, func(ins ssa.Instruction) {
+				if r, isR := ins.(*ssa.Return); isR && r.Block() != drainFn.Recover {
 					after := false
 					for _, cnd := range core.EdgeFacts(r.Block()) {
 						n := core.Normalize(cnd)
@@ -466,6 +472,13 @@ func c16impl(c *core.Ctx, im *ssa.Function) {
 					}
 				}
 			})
+			if len(drainStack) == 1 {
+				core.Instrs(im, func(ins ssa.Instruction) {
+					if r, isR := ins.(*ssa.Return); isR && r.Block() != im.Recover && !core.InstrDominates(drainStack[0], r) {
+						okRet = false
+					}
+				})
+			}
 			if !okRet {
 				return false, "PMap can return before the result channel was closed (not all applications finished)"
 			}
@@ -554,20 +567,37 @@ func c16ordered(p *core.Prog, im, producer, workerFn *ssa.Function, list, fParam
 		return false, "a worker does not send f(element) under the key it received with that element"
 	}
 	// collector: newListMap[k] = v for entries of received maps; newList[i] = newListMap[i]
+	// (the collecting loop may sit in an unexported helper that returns the map)
 	okC1, okC2 := false, false
+	var collected []core.Leaf
+	for _, fd := range core.DeepFind(p, im, func(ins ssa.Instruction) bool {
+		x, isMU := ins.(*ssa.MapUpdate)
+		if !isMU {
+			return false
+		}
+		k, okK := x.Key.(*ssa.Extract)
+		v, okV := x.Value.(*ssa.Extract)
+		return okK && okV && k.Tuple == v.Tuple && k.Index == 1 && v.Index == 2
+	}) {
+		okC1 = true
+		collected = append(collected, core.Origins(p, fd.Ins.(*ssa.MapUpdate).Map, fd.Stack)...)
+	}
 	core.Instrs(im, func(ins ssa.Instruction) {
-		switch x := ins.(type) {
-		case *ssa.MapUpdate:
-			k, okK := x.Key.(*ssa.Extract)
-			v, okV := x.Value.(*ssa.Extract)
-			if okK && okV && k.Tuple == v.Tuple && k.Index == 1 && v.Index == 2 {
-				okC1 = true
-			}
-		case *ssa.Store:
-			ia, isIA := x.Addr.(*ssa.IndexAddr)
-			lk, isLk := x.Val.(*ssa.Lookup)
-			if isIA && isLk && ia.Index == lk.Index && !lk.CommaOk {
-				okC2 = true
+		x, isSt := ins.(*ssa.Store)
+		if !isSt {
+			return
+		}
+		ia, isIA := x.Addr.(*ssa.IndexAddr)
+		lk, isLk := x.Val.(*ssa.Lookup)
+		if !isIA || !isLk || ia.Index != lk.Index || lk.CommaOk {
+			return
+		}
+		// the map read is the map collected into
+		for _, src := range core.Origins(p, lk.X, nil) {
+			for _, cl := range collected {
+				if src.Val == cl.Val {
+					okC2 = true
+				}
 			}
 		}
 	})
